@@ -9,7 +9,7 @@ PROPS = {
     "C01": {"level": "proof", "areas": DEC, "theorems": [], "streams": ["scripts", "decode"]},
     "C04": {"level": "proof", "areas": DEC, "theorems": [], "streams": ["rdlen"]},
     "C10": {"level": "proof", "areas": DEC, "theorems": [], "streams": ["randacc"]},
-    "C17": {"level": "proof", "areas": DEC, "theorems": [], "streams": ["misuse"]},
+    "C17": {"level": "proof", "areas": DEC, "theorems": ["C17_no_ub", "C17_slices_inside"], "streams": ["misuse"]},
     "C03": {
         "level": "proof",
         "areas": CORE,
